@@ -19,3 +19,41 @@ Definition rinit (tr : list rpacket) : N -> option (list bytes) :=
 
 Definition replay_run (tr : list rpacket) : list (N * bytes) :=
   snd (run rpacket N (list bytes) bytes rkey N.eqb rlstep (rinit tr) tr).
+
+(* ---- worker pool over the replay instance (C10) ---- *)
+Definition rshard (workers : nat) (k : N) : nat := Nat.modulo (N.to_nat k) workers.
+Definition pool_init (tr : list rpacket) : pst rpacket N (list bytes) bytes :=
+  init rpacket N (list bytes) bytes (rinit tr).
+Definition pool_step (workers : nat) :=
+  pstep rpacket N (list bytes) bytes rkey N.eqb rlstep (rshard workers).
+
+Inductive sched := SDisp | SWork (w : nat).
+(* turn a schedule into pool events: each SDisp dispatches the next packet of the trace *)
+Fixpoint sched_events (s : list sched) (tr : list rpacket) : list (ev rpacket) :=
+  match s with
+  | [] => map (Disp rpacket) tr                       (* whatever was not dispatched yet *)
+  | SDisp :: s' => match tr with p :: tr' => Disp rpacket p :: sched_events s' tr' | [] => sched_events s' [] end
+  | SWork w :: s' => Work rpacket w :: sched_events s' tr
+  end.
+(* drain: every worker handles everything left in its queue *)
+Definition drain_events (workers n : nat) : list (ev rpacket) :=
+  flat_map (fun w => repeat (Work rpacket w) n) (seq 0 workers).
+
+Definition pool_run (workers : nat) (s : list sched) (tr : list rpacket) : list (N * bytes) :=
+  outs rpacket N (list bytes) bytes
+    (fold_left (pool_step workers) (sched_events s tr ++ drain_events workers (length tr)) (pool_init tr)).
+
+(* canonical multiset form: insertion sort of the non-empty result tokens *)
+Fixpoint bytes_leb (a b : bytes) : bool :=
+  match a, b with
+  | [], _ => true
+  | _ :: _, [] => false
+  | x :: a', y :: b' => if N.ltb (b2n x) (b2n y) then true else if N.ltb (b2n y) (b2n x) then false else bytes_leb a' b'
+  end.
+Fixpoint insert_sorted (x : bytes) (l : list bytes) : list bytes :=
+  match l with
+  | [] => [x]
+  | y :: r => if bytes_leb x y then x :: l else y :: insert_sorted x r
+  end.
+Definition sort_bytes (l : list bytes) : list bytes := fold_right insert_sorted [] l.
+Definition reported (l : list bytes) : list bytes := filter (fun t => negb (bytes_eqb t (bs "-"))) l.
